@@ -129,12 +129,14 @@ def ctx():
 class DefGen:
     """Emits one module of function definitions in assorted layouts."""
 
-    def __init__(self, rng, tabs=False, exotic=False, defects=True):
+    def __init__(self, rng, tabs=False, exotic=False, defects=True, future=False):
         self.rng = rng
         self.tabs = tabs
         self.exotic = exotic          # continuations that change token boundaries
         self.defects = defects        # layouts known to trigger the pinned-tree defects
-        self.lines = PRELUDE.split('\n')[:-1]
+        # `from __future__ import …` at the top: transpiler.transform_function passes the names to parse_entity,
+        # which prepends the import lines to the recovered source
+        self.lines = (['from __future__ import annotations, division'] if future else []) + PRELUDE.split('\n')[:-1]
         self.n = 0
         self.funcs = []               # dict(name, feats) in registration order is NOT guaranteed; use names
         self.cur = None               # feature set of the function being emitted
